@@ -4,17 +4,17 @@ From Coq Require Import ZArith.
 
 (* AllocID ; replicate file ; save ; publish  (model: switch _ Async) *)
 Lemma skel_drSwitchToAsyncWithLock_ok : skel_drSwitchToAsyncWithLock =
-  [Call "AllocID"; IfE "err != nil" [Ret] []; Assign "dr" ":= drAutoSyncStatus{State: drStateAsync, StateID: id}"; Call "drPersistStatus"; IfE "err != nil" [Ret] []; Call "SaveReplicationStatus"; IfE "err != nil" [Ret] []; Assign "m.drAutoSync" "= dr"; Ret].
+  [Call "AllocID"; IfE "err != nil" [Ret] []; Assign "status" ":= drAutoSyncStatus{State: drStateAsync, StateID: id}"; Call "drPersistStatus"; IfE "err != nil" [Ret] []; Call "SaveReplicationStatus"; IfE "err != nil" [Ret] []; Assign "m.drAutoSync" "= status"; Ret].
 Proof. reflexivity. Qed.
 
 (* AllocID ; replicate file ; save ; publish ; reset of the recovery cursor  (model: switch _ SyncRecover) *)
 Lemma skel_drSwitchToSyncRecoverWithLock_ok : skel_drSwitchToSyncRecoverWithLock =
-  [Call "AllocID"; IfE "err != nil" [Ret] []; Assign "dr" ":= drAutoSyncStatus{State: drStateSyncRecover, StateID: id, RecoverStartTime: time.Now()}"; Call "drPersistStatus"; IfE "err != nil" [Ret] []; Call "SaveReplicationStatus"; IfE "err != nil" [Ret] []; Assign "m.drAutoSync" "= dr"; Assign "m.drRecoverKey" "= nil"; Assign "m.drRecoverCount" "= 0"; Ret].
+  [Call "AllocID"; IfE "err != nil" [Ret] []; Assign "status" ":= drAutoSyncStatus{State: drStateSyncRecover, StateID: id, RecoverStartTime: time.Now()}"; Call "drPersistStatus"; IfE "err != nil" [Ret] []; Call "SaveReplicationStatus"; IfE "err != nil" [Ret] []; Assign "m.drAutoSync" "= status"; Assign "m.drRecoverKey" "= nil"; Assign "m.drRecoverCount" "= 0"; Ret].
 Proof. reflexivity. Qed.
 
 (* AllocID ; replicate file ; save ; publish ; the cursor is left alone  (model: switch _ Sync) *)
 Lemma skel_drSwitchToSync_ok : skel_drSwitchToSync =
-  [Lock "m"; DeferUnlock "m"; Call "AllocID"; IfE "err != nil" [Ret] []; Assign "dr" ":= drAutoSyncStatus{State: drStateSync, StateID: id}"; Call "drPersistStatus"; IfE "err != nil" [Ret] []; Call "SaveReplicationStatus"; IfE "err != nil" [Ret] []; Assign "m.drAutoSync" "= dr"; Ret].
+  [Lock "m"; DeferUnlock "m"; Call "AllocID"; IfE "err != nil" [Ret] []; Assign "status" ":= drAutoSyncStatus{State: drStateSync, StateID: id}"; Call "drPersistStatus"; IfE "err != nil" [Ret] []; Call "SaveReplicationStatus"; IfE "err != nil" [Ret] []; Assign "m.drAutoSync" "= status"; Ret].
 Proof. reflexivity. Qed.
 
 (* the replicater's error is thrown away: the file is offered, delivery is not required  (model: f_rep has no effect) *)
